@@ -233,6 +233,9 @@ def run(chk: Check, tier: str):
         machines.append(invgen.same_block_machine())
         machines.append(invgen.later_block_machine())
         machines.append(invgen.merge_machine())
+        # the depth of a test given by its own annotation: deeper (3) and shallower (1) than the default of 2
+        machines.append(invgen.counter_machine(3))
+        machines.append(invgen.counter_machine(1))
         machines.append(invgen.refuted_probe_machine(True))
         machines.append(invgen.refuted_probe_machine(False))
         late = len(machines)
@@ -261,7 +264,7 @@ def run(chk: Check, tier: str):
         replay_cases, replay_index = [], {}
         for i, m in enumerate(machines):
             with capture_cex() as rec, capture_calls() as made:
-                out = run_contract(m.test, others=[m.target] + ([m.dummy] if m.dummy else []), cli=("--invariant-depth", str(m.depth)))
+                out = run_contract(m.test, others=[m.target] + ([m.dummy] if m.dummy else []), cli=("--invariant-depth", str(m.depth)) if m.depth_via == "cli" else ())
             if out.exception:
                 raise MachineryError(f"run_contract: {out.exception}")
             r = out.by_sig().get("invariant_machine()")
